@@ -5,6 +5,8 @@
 prop=$1; n=$2; shift 2
 checks="$@"; [ -z "$checks" ] && checks=$prop
 src=/tmp/mut/$prop/OUT/$n
+# a kept change: /verif/seeded/<prop>-<n> (demonstration stored as *_test.go.txt)
+if [ -d /verif/seeded/$prop-$n ]; then src=/verif/seeded/$prop-$n; fi
 wt=/tmp/mw/$prop-$n
 res=/tmp/mw/results/$prop-$n.txt
 mkdir -p /tmp/mw/results
@@ -31,7 +33,7 @@ print('suite: %d/%d baseline tests pass'%(len(base)-len(bad),len(base)), bad[:3]
 ")
 echo "$suite"
 # demonstration
-demo=$(ls $src/*_test.go 2>/dev/null | head -1)
+demo=$(ls $src/*_test.go $src/*_test.go.txt 2>/dev/null | head -1)
 if [ -n "$demo" ]; then
   pkg=$(grep -m1 '^package ' $demo | awk '{print $2}')
   case $pkg in
@@ -57,7 +59,7 @@ fi
 cd /verif
 for c in $checks; do
   t0=$(date +%s)
-  out=$(timeout 1500 ./bin/symgo check -prop $c -tier quick -repo $wt -verif /verif 2>&1)
+  out=$(VERIF_EVIDENCE_DIR=/tmp/mw/evidence timeout 2400 ./bin/symgo check -prop $c -tier quick -repo $wt -verif /verif 2>&1)
   code=$?
   echo "check $c: exit=$code ($(( $(date +%s)-t0 ))s) $(echo "$out" | grep -m2 -E 'VIOLATION|INCONCLUSIVE' | cut -c1-260 | tr '\n' ' ')"
 done
